@@ -479,8 +479,9 @@ type regCheck struct {
 	prop   string
 	name   string
 	weight float64
-	run    func(t *testing.T)
-	replay func(raw json.RawMessage) *Fail
+	run      func(t *testing.T)
+	property func(rt *rapid.T)
+	replay   func(raw json.RawMessage) *Fail
 }
 
 var registry = map[string]*regCheck{}
@@ -490,6 +491,15 @@ var registry = map[string]*regCheck{}
 // code under test and returns nil when every rule holds.
 func register[C any](prop, name string, weight float64, gen func(t *rapid.T) C, judge func(c C) *Fail) {
 	rc := &regCheck{prop: prop, name: name, weight: weight}
+	rc.property = func(rt *rapid.T) {
+		c := gen(rt)
+		st.inc("evaluations:" + name)
+		writeCurCase(prop, name, c)
+		if f := judge(c); f != nil {
+			writeReplay(prop, name, c, f)
+			rt.Fatalf("VIOLATION-CANDIDATE property=%s check=%s rule=%s: %s", prop, name, f.Rule, f.Detail)
+		}
+	}
 	rc.run = func(t *testing.T) {
 		setRapidFlags(weight)
 		rapid.Check(t, func(rt *rapid.T) {
@@ -566,6 +576,15 @@ func runAggregate(t *testing.T, prop, name string, min int, judge func(c AggCase
 		t.Fatalf("VIOLATION-CANDIDATE property=%s check=%s rule=%s: %s", prop, name, f.Rule, f.Detail)
 	}
 	st.nontrivial(name, strings.Join(c.Reqs, "|"))
+}
+
+// fuzzRegistered lets Go's coverage-guided fuzzer drive a registered rapid property (thorough tier only).
+func fuzzRegistered(f *testing.F, name string) {
+	rc, ok := registry[name]
+	if !ok || rc.property == nil {
+		f.Fatalf("check %s not registered", name)
+	}
+	f.Fuzz(rapid.MakeFuzz(rc.property))
 }
 
 func runRegistered(t *testing.T, name string) {
